@@ -150,3 +150,71 @@ Example explain_manifest_example :
     ++ bs "cmdline: cc a.c" ++ [10%N] ++ bs "rspfile path: o.rsp" ++ [10%N]
     ++ bs "rspfile hash: " ++ hex_of_N (siphash13 (bs "x")) ++ [10%N] ++ bs "out:" ++ [10%N] ++ bs "  1500000003000 o" ++ [10%N].
 Proof. vm_compute. reflexivity. Qed.
+
+(* ------------------------------------------------------------------------------------ *)
+(* non-vacuity: one step `cc a.c -> o` with a reported header, in four states *)
+Definition ex_bd : wbuild := mkWBuild [bs "a.c"] 1 0 0 [bs "o"] (Some (bs "cc a.c")) None.
+Definition ex_g : wgraph := mkWGraph [ex_bd] [(bs "o", 0%nat)].
+Definition ex_t (s : N) : mtime := (1500000000 + s, 0)%N.
+Definition ex_tree : fsmap := [(bs "a.c", ex_t 1); (bs "a.h", ex_t 2); (bs "o", ex_t 3)].
+Definition ex_manifest : manifest := mkManifest [(bs "a.c", ex_t 1)] [(bs "a.h", ex_t 2)] (bs "cc a.c") None [(bs "o", ex_t 3)].
+Definition ex_w (fs : fsmap) (h : list (nat * N)) : wstate := mkW fs [] [(0%nat, [bs "a.h"])] h [] [].
+
+Example ex_clean : explain_reason ex_g (ex_w ex_tree [(0%nat, hash_build ex_manifest)]) 0 ex_bd = None
+  /\ snd (check_build_dirty ex_g (ex_w ex_tree [(0%nat, hash_build ex_manifest)]) 0 ex_bd) = DClean.
+Proof. vm_compute. split; reflexivity. Qed.
+
+Example ex_header_gone :
+  explain_verdict ex_g (ex_w [(bs "a.c", ex_t 1); (bs "o", ex_t 3)] [(0%nat, hash_build ex_manifest)]) 0 ex_bd (bs "build.ninja:3")
+  = [bs "explain: build.ninja:3: input a.h missing"].
+Proof. vm_compute. reflexivity. Qed.
+
+Example ex_no_record :
+  explain_verdict ex_g (ex_w ex_tree []) 0 ex_bd (bs "build.ninja:3") = [bs "explain: build.ninja:3: no previous state known"].
+Proof. vm_compute. reflexivity. Qed.
+
+Example ex_touched :
+  explain_verdict ex_g (ex_w [(bs "a.c", ex_t 1); (bs "a.h", ex_t 9); (bs "o", ex_t 3)] [(0%nat, hash_build ex_manifest)]) 0 ex_bd (bs "build.ninja:3")
+  = [bs "explain: build.ninja:3: manifest changed";
+     bs "in:" ++ [10%N] ++ bs "  1500000001000 a.c" ++ [10%N] ++ bs "discovered:" ++ [10%N] ++ bs "  1500000009000 a.h" ++ [10%N]
+     ++ bs "cmdline: cc a.c" ++ [10%N] ++ bs "out:" ++ [10%N] ++ bs "  1500000003000 o" ++ [10%N]].
+Proof. vm_compute. reflexivity. Qed.
+
+(* ------------------------------------------------------------------------------------ *)
+(* along an invocation: on every trace the World replay accepts, explain_trace has exactly one
+   entry per verdict, in order, and each entry is explain_verdict on the state the replay had *)
+Fixpoint verdict_steps (evs : list wevent) : list nat :=
+  match evs with
+  | [] => []
+  | WVerdict b _ :: r => b :: verdict_steps r
+  | _ :: r => verdict_steps r
+  end.
+
+Lemma explain_trace_covers g locs : forall evs w pend i w',
+  replay g w pend evs i = WOk w' -> map fst (explain_trace g locs w pend evs) = verdict_steps evs.
+Proof.
+  induction evs as [|e evs IH]; intros w pend i w' H; [reflexivity|].
+  destruct e as [b v|b term reported|b h|b|n t|b]; cbn [replay explain_trace verdict_steps] in *.
+  - destruct (check_build_dirty g w b (get_wbuild g b)) as [w1 r] eqn:E. cbn [fst map].
+    destruct ((match r with DClean => 0 | DDirty _ => 1 | DError _ => 2 end =? v)%N); [|discriminate].
+    f_equal. eapply IH; eauto.
+  - destruct (term =? 0)%N; eapply IH; eauto.
+  - destruct pend as [[b' rep]|]; [|discriminate].
+    destruct (negb (b =? b')%nat); [discriminate|].
+    destruct (record_finished w b (get_wbuild g b) rep) as [[w1 [h'|]]| | | |]; try discriminate.
+    destruct (h =? h')%N; [|discriminate]. eapply IH; eauto.
+  - destruct pend as [[b' rep]|]; [|discriminate].
+    destruct (negb (b =? b')%nat); [discriminate|].
+    destruct (record_finished w b (get_wbuild g b) rep) as [[w1 [h'|]]| | | |]; try discriminate.
+    eapply IH; eauto.
+  - eapply IH; eauto.
+  - eapply IH; eauto.
+Qed.
+
+(* explaining changes nothing: the state after a verdict is the check's own, whatever is logged -
+   the entry for the first verdict of a trace is explain_verdict on the state before it *)
+Lemma explain_trace_first g locs w pend b v rest :
+  explain_trace g locs w pend (WVerdict b v :: rest) =
+  (b, explain_verdict g w b (get_wbuild g b) (nth b locs [])) ::
+  explain_trace g locs (fst (check_build_dirty g w b (get_wbuild g b))) pend rest.
+Proof. reflexivity. Qed.
